@@ -9,11 +9,13 @@ import (
 	"os"
 	"os/exec"
 	"path/filepath"
+	"sort"
 	"strings"
 	"sync"
 	"time"
 
 	"github.com/pgavlin/dawn"
+	"github.com/pgavlin/dawn/diff"
 	"github.com/pgavlin/dawn/label"
 	starlark_sh "github.com/pgavlin/dawn/lib/sh"
 	"github.com/pgavlin/dawn/pickle"
@@ -43,9 +45,23 @@ def t():
 // the child: one fresh Load + Run of //:default, as the CLI does
 var childPreferIndex bool
 
+// evaluated records which targets a run (re-)evaluated
+type evaluated struct {
+	dawn.Events
+	mu     sync.Mutex
+	labels []string
+}
+
+func (e *evaluated) TargetEvaluating(l *label.Label, reason string, d diff.ValueDiff) {
+	e.mu.Lock()
+	e.labels = append(e.labels, l.String())
+	e.mu.Unlock()
+}
+
 func child(dir string) {
 	def, _ := label.Parse("//:default")
-	proj, err := dawn.Load(dir, &dawn.LoadOptions{Builtins: starlark.StringDict{"sh": starlark_sh.Module}, PreferIndex: childPreferIndex})
+	ev := &evaluated{Events: dawn.DiscardEvents}
+	proj, err := dawn.Load(dir, &dawn.LoadOptions{Builtins: starlark.StringDict{"sh": starlark_sh.Module}, PreferIndex: childPreferIndex, Events: ev})
 	if err != nil {
 		fmt.Println("RESULT load-error")
 		return
@@ -54,6 +70,8 @@ func child(dir string) {
 		fmt.Println("RESULT run-error")
 		return
 	}
+	sort.Strings(ev.labels)
+	fmt.Println("EVALUATED " + strings.Join(ev.labels, ","))
 	fmt.Println("RESULT ok")
 }
 
@@ -78,9 +96,13 @@ func runChildP(dir string, prefer bool) (string, string) {
 		cmd.Process.Kill()
 		return "hang", ""
 	}
+	evaluatedLabels := ""
 	for _, l := range strings.Split(out.String(), "\n") {
+		if strings.HasPrefix(l, "EVALUATED ") {
+			evaluatedLabels = l[10:]
+		}
 		if strings.HasPrefix(l, "RESULT ") {
-			return l[7:], ""
+			return l[7:], evaluatedLabels // for `ok`: the targets the run evaluated
 		}
 	}
 	e := errb.String()
